@@ -65,12 +65,39 @@ Mismatches(r) ==
               j \in {JudgeHay(r, hi, which)} \ {x \in {JudgeHay(r, hi, which)} : x.ok} }
           : hi \in DOMAIN r.hays, which \in {"opt", "noopt"} }
 
+(***************************************************************************)
+(* C04: the start predicate the compiler derived (dumped with the program) *)
+(* must admit every offset at which an anchored attempt succeeds - also    *)
+(* offsets after the first match, which a differential run never reaches.  *)
+(***************************************************************************)
+WantPred == "PRED" \in DOMAIN IOEnv /\ IOEnv.PRED = "1"
+
+Admits(sp, B, p) ==
+  CASE sp.kind = "Arbitrary" -> TRUE
+    [] sp.kind = "ByteSet" -> p < Len(B) /\ InSeq(sp.bytes, B[p + 1])
+    [] sp.kind = "ByteSeq" -> p + Len(sp.bytes) <= Len(B) /\ SubSeq(B, p + 1, p + Len(sp.bytes)) = sp.bytes
+    [] sp.kind = "StartAnchored" -> p = 0
+
+Boundaries(B) == {p \in 0..Len(B) : OnBoundary(B, p)}
+
+PredMismatches(r) ==
+  IF ~WantPred THEN {}
+  ELSE UNION { LET P == r.progs[which]
+                   B == Utf8Seq(r.hays[hi])
+               IN { [kind |-> "pred", id |-> r.rid, h |-> hi - 1, prog |-> which, at |-> p, pred |-> P.start_pred] :
+                      p \in {q \in Boundaries(B) :
+                               /\ ~Admits(P.start_pred, B, q)
+                               /\ BT!RunAll(P, B, BT!InitState(P, q), Fuel).status = "matched"} }
+             : hi \in DOMAIN r.hays, which \in {"opt", "noopt"} }
+
 RECURSIVE TakeSome(_, _)
 TakeSome(S, k) == IF k = 0 \/ S = {} THEN {} ELSE LET x == CHOOSE y \in S : TRUE IN {x} \cup TakeSome(S \ {x}, k - 1)
 
 Report(r) ==
   LET mm == Mismatches(r)
+      pm == PredMismatches(r)
   IN /\ \A m \in TakeSome(mm, 3) : PrintT("J " \o ToJson(m))
+     /\ \A m \in TakeSome(pm, 3) : PrintT("J " \o ToJson(m))
      /\ PrintT("J " \o ToJson([kind |-> "vmstat", id |-> r.rid, runs |-> 4 * Len(r.hays), mism |-> Cardinality(mm)]))
 
 VARIABLE i
